@@ -139,6 +139,7 @@ var props = map[string]propCfg{
 	"C06": {Quick: tc(5000, 200, 45), Thorough: tc(300000, 500, 900)},
 	"C07": {Quick: tc(6000, 200, 45), Thorough: tc(300000, 500, 900)},
 	"C08": {Quick: tc(5000, 200, 45), Thorough: tc(300000, 500, 900)},
+	"C09": {Quick: tc(5000, 200, 45), Thorough: tc(300000, 500, 900)},
 	"C10": {Quick: tc(5000, 100, 80), Thorough: tc(100000, 100, 1200), Race: true},
 	"C11": {Quick: tc(4000, 100, 60), Thorough: tc(300000, 300, 1200)},
 	"C12": {Quick: tcw(102, 1, 150, 150), Thorough: tcw(204, 1, 3000, 1500)},
@@ -206,7 +207,7 @@ func prepare(race bool) *build {
 	raw, _ := os.ReadFile(filepath.Join(dir, "instrument.json"))
 	json.Unmarshal(raw, &b.instr)
 	b.worker = filepath.Join(dir, "worker.test")
-	args := []string{"test", "-c", "-overlay", b.overlay, "-o", b.worker}
+	args := []string{"test", "-c", "-vet=off", "-overlay", b.overlay, "-o", b.worker}
 	if race {
 		args = append(args, "-race")
 	}
